@@ -240,6 +240,59 @@ def run(R):
                                 % (vn.upper(), "&&" if want_edge else "||"), [f.loc(barms[vn][0])])
         else:
             R.violation("C03.bool", "no-match", "BooleanOperation arm does not dispatch on the operator", [f.loc(arms_["BooleanOperation"][0])])
+    # ---- lowering: each parsed node becomes the like-named engine node (no rewriting that assumes three-valued logic)
+    R.rule("C03.lower", "the converter maps every parsed operator to the like-named engine operator and NOT to a plain Invert node: "
+                        "no algebraic rewriting (e.g. NOT (a = b) -> a != b, which differs on NULL in this engine)")
+    tf = R.need_fn("sqlgrep::parsing::parser_tree_converter::transform_expression")
+    tsw = [sw for sw in A.enum_switches(tf, "parser::ParserExpressionTreeData") if tf.dominates(sw, sw)]
+    if not tsw:
+        R.violation("C03.lower", "transform_expression|no-match", "transform_expression does not match on the parsed node", [tf.loc()])
+    else:
+        tarms, twild, trest = A.arms(tf, tsw[0])
+
+        def built(reg, adt_suffix):
+            return [s_["rv"].get("variant") for i, s_ in tf.stmts() if i in reg and s_["k"] == "assign" and s_["rv"]["k"] == "aggr" and
+                    (s_["rv"].get("adt") or "").endswith(adt_suffix)]
+        if "Invert" in tarms:
+            reg = tarms["Invert"][1]
+            nodes = set(built(reg, "model::ExpressionTree"))
+            ops = set(built(reg, "model::UnaryArithmeticOperator"))
+            cmpops = set(built(reg, "model::CompareOperator"))
+            if nodes == {"UnaryArithmetic"} and ops == {"Invert"} and not cmpops:
+                R.ok("C03.lower", "transform_expression|Invert", "NOT e -> UnaryArithmetic{Invert, e}", tf.loc(tarms["Invert"][0]))
+            else:
+                R.violation("C03.lower", "transform_expression|Invert",
+                            "the NOT arm of the converter builds %s / %s %s instead of a plain Invert node: NOT over a comparison with a NULL operand "
+                            "changes value (comparison with NULL is false, NOT is two-valued)" % (sorted(nodes), sorted(ops), sorted(cmpops)),
+                            [tf.loc(tarms["Invert"][0])])
+        else:
+            R.violation("C03.lower", "transform_expression|Invert|missing", "no Invert arm in the converter", [tf.loc()])
+        if "BinaryOperator" in tarms:
+            reg = tarms["BinaryOperator"][1]
+            want = {43: "Add", 45: "Subtract", 42: "Multiply", 47: "Divide", 60: "LessThan", 62: "GreaterThan", 61: "Equal",
+                    (33, 61): "NotEqual", (62, 61): "GreaterThanOrEqual", (60, 61): "LessThanOrEqual"}
+            got = {}
+            for i, s_ in tf.stmts():
+                if i in reg and s_["k"] == "assign" and s_["rv"]["k"] == "aggr" and \
+                        ((s_["rv"].get("adt") or "").endswith("model::ArithmeticOperator") or (s_["rv"].get("adt") or "").endswith("model::CompareOperator")):
+                    chars = []
+                    for gsw, lab, tgt in F.guards_dominating(tf, i):
+                        t_ = tf.blocks[gsw]["term"]
+                        d_ = t_["discr"]
+                        if d_.get("ty") == "char" and lab not in ("otherwise",):
+                            try:
+                                chars.append(int(lab))
+                            except ValueError:
+                                pass
+                    chars = list(reversed(chars))
+                    key_ = chars[0] if len(chars) == 1 else tuple(chars[:2])
+                    got[key_] = s_["rv"].get("variant")
+            if got == want:
+                R.ok("C03.lower", "transform_expression|BinaryOperator", "10 operator literals map to the like-named operators", tf.loc(tarms["BinaryOperator"][0]))
+            else:
+                diff = {str(k): (got.get(k), want.get(k)) for k in set(got) | set(want) if got.get(k) != want.get(k)}
+                R.violation("C03.lower", "transform_expression|BinaryOperator",
+                            "operator literal -> engine operator table deviates (got, expected): %s" % diff, [tf.loc(tarms["BinaryOperator"][0])])
     # ---- CASE takes the first true branch; array subscripts are 1-based
     R.rule("C03.case", "CASE evaluates its WHEN clauses in order and returns the THEN value of the first true one, else the ELSE value")
     R.rule("C03.subscript", "array subscripts are 1-based: the element index is the subscript minus the constant 1 (checked), looked up with get()")
